@@ -17,7 +17,7 @@ SCALARS = [0, 1, 2, True, False, None, "", "a", "b"]
 DISPATCH_VALUES = ["a", "b", "c", 1, 2, None]  # hashable; no two equal in Python
 # (escaped braces appear in Template node texts only: a dictionary value "\\{lit\\}" resolves to "{lit}", which a
 #  template that stringifies it would re-interpret as a reference — a C09 matter, not claimed here)
-TEMPLATES = ["{A}", "{B}", "p{S.X}q", "{S.Y}", "x{C}", "{M}", "{B}{C}"]
+TEMPLATES = ["{A}", "{B}", "p{S.X}q", "{S.Y}", "x{C}", "{M}", "{B}{C}", "{L}"]  # "{L}": a whole list, whose elements may be templates again
 
 
 PRESET_TEMPLATE_TARGETS = ["B", "C"]  # keys pre-set templates may refer to; they never hold templated values themselves
@@ -343,7 +343,7 @@ class DictGen:
 
     MUTATIONS = [
         "repeat", "repeat", "change", "change", "change", "delete", "add", "never", "permute",
-        "sibling", "template", "fresh", "section_replace",
+        "sibling", "template", "fresh", "section_replace", "listref",
     ]
 
     def mutate(self, prev, hint_read=None, hint_unread=None):
@@ -413,6 +413,12 @@ class DictGen:
                 o[k] = r.choice(SCALARS)
             else:
                 o[k] = {r.choice(["X", "Y"]): self.scalar()}
+        elif m == "listref" and self.cfg.get("tmpl") and self.cfg.get("tmpl_in_container") and self.cfg.get("lists"):
+            # a scalar key whose value refers to a whole LIST that holds templated elements (a reference chain through
+            # a container: key -> '{L}' -> ['x{C}', ...] -> C)
+            k = r.choice([x for x in SCALAR_KEYS if not (self.cfg.get("tmpl_preset") and x in PRESET_TEMPLATE_TARGETS)] or ["A"])
+            o[k] = "{L}"
+            o["L"] = [r.choice(["x{C}", "{B}", "{M}", "p{S.X}q"]), r.choice([0, "a"])]
         elif m == "fresh":
             o = self.fresh()
             if r.random() < 0.3:
